@@ -651,7 +651,7 @@ func c05Scenarios(tier string) []scenario {
 				cfg.P = 2 // (the reader has to overtake the closing goroutine twice)
 			}
 			if tier == "thorough" {
-				cfg.P = 3
+				cfg.P = 2 // (three preemptions: > 1 M executions per scenario)
 			}
 			scs = append(scs, scenario{Name: prm.name(), Cfg: cfg, Setup: c05RCSetup(prm)})
 		}
